@@ -46,7 +46,14 @@ def prelude_cases():
 def inject(rng, text):
     """insert one fault line at a random top-level position; returns (new text, line number, kind)"""
     lines = text.rstrip("\n").split("\n")
-    tops = [i for i, l in enumerate(lines) if l and not l.startswith(" ") and not l.startswith("else")] + [len(lines)]
+    # lines inside a multi-line string or doc-string are not statements, whatever their indentation
+    inside, in_str = set(), False
+    for i, l in enumerate(lines):
+        if in_str:
+            inside.add(i)
+        if (l.count('"""') % 2 == 1) or (l.replace('"""', "").count('"') % 2 == 1):
+            in_str = not in_str
+    tops = [i for i, l in enumerate(lines) if l and i not in inside and not l.startswith(" ") and not l.startswith("else")] + [len(lines)]
     # only between top-level statements whose previous line does not open a block
     cands = [i for i in tops if i == 0 or not (lines[i - 1].rstrip().endswith(("=>", "then", "do", "handle", "else")) or lines[i - 1].startswith("class ") and i < len(lines) and lines[i].startswith(" "))]
     cands = [i for i in cands if i == len(lines) or not lines[i].startswith(" ")]
@@ -156,7 +163,7 @@ def run(chk):
             if why is None:
                 stats["localised"] += 1
         if why:
-            f = chk.known(fault) or chk.known(text)
+            f = chk.known(fault) or chk.known(text) or (chk.known("diagnostic: " + r[0][1][0]) if r[0][0] == "err" and r[0][1] else None)
             if f:
                 chk.report_known(f, why)
             elif len(chk.violations) < 6:
